@@ -1,4 +1,114 @@
-import Smpp.Model.Pdu
+/-
+C12 — Marshal is all-or-nothing and never panics.
+-/
+import Smpp.Proofs.Roundtrip
+import Smpp.Generated.Layouts
+import Smpp.Generated.PduFacts
+
 namespace Smpp.Properties.C12
-theorem test : 1 + 1 = 2 := rfl
+open Smpp Smpp.Pdu Smpp.Generated
+
+/-- The Write calls Marshal issues to its destination: the model's `MarshalOut` records the
+octets handed to the single `buf.WriteTo(w)`. -/
+def writes (o : MarshalOut) : List Bytes :=
+  match o.res with
+  | .ok b => [b]
+  | _ => []
+
+/-! ## expectations on regenerated facts -/
+
+/-- Marshal touches its destination in exactly one place, the final `buf.WriteTo(w)`;
+bytes.Buffer.WriteTo issues one Write with the whole buffer. -/
+theorem single_write_site : marshalWriterUses = ["buf.WriteTo(w)"] := by decide +kernel
+
+/-- every PDU struct starts with its Header (so the model's fallback arm for header-less
+structs is never taken for a value of a registered type) -/
+theorem header_first :
+    pduLayouts.all (fun L => match L.fields with | f :: _ => f.kind == .header | [] => false) = true := by
+  decide +kernel
+
+/-- the literal guards of the codec (encoder size limits, decoder bounds), all of them -/
+theorem codec_guards : pduGuards = [
+  "pdu/header.go readHeaderFrom: header.CommandLength < 16",
+  "pdu/header.go readHeaderFrom: header.CommandLength > 0x10000",
+  "pdu/marshal.go Marshal: v.Sequence > 0",
+  "pdu/message.go ShortMessage.WriteTo: len(p.Message) > MaxShortMessageLength",
+  "pdu/message.go ShortMessage.WriteTo: len(data)-1-start > 0xFF",
+  "pdu/message.go ShortMessage.Compose: coding.Splitter().Len(input) > MaxShortMessageLength",
+  "pdu/udh.go UserDataHeader.ReadFrom: len(header) > 0",
+  "pdu/udh.go UserDataHeader.WriteTo: len(data) > 0xFF",
+  "pdu/udh.go UserDataHeader.WriteTo: len(data)-1 > 0xFF",
+  "pdu/udh.go UserDataHeader.ConcatenatedHeader: len(data) >= 3",
+  "pdu/udh.go UserDataHeader.ConcatenatedHeader: len(data) >= 4",
+  "pdu/tag.go Tags.ReadFrom: len(tags) > 0",
+  "pdu/tag.go Tags.WriteTo: length < 0xFFFF",
+  "pdu/address.go Address.String: len(p.No) > 0",
+  "pdu/address.go DestinationAddresses.WriteTo: length > 0xFF",
+  "pdu/address.go UnsuccessfulRecords.WriteTo: len(p) > 0xFF"] := by decide +kernel
+
+/-! ## theorems — for EVERY layout and EVERY value, no domain restriction -/
+
+/-- Marshal never panics: the only partial operation, the length patch `data[0:4]`, is reached
+only after the 16-octet header has been written. -/
+theorem C12_total (L : Layout) (v : List FVal) : (marshal L v).res.isPanic = false := by
+  unfold marshal
+  split
+  · next h rest =>
+    simp only
+    split
+    · rfl
+    · split
+      · rfl
+      · split
+        · rfl
+        · next body rest' _ =>
+          have : ¬ ((encHeader { h with id := UInt32.ofNat L.id } ++ body).length < 4) := by
+            simp [encHeader_length]; omega
+          simp only [this, ↓reduceIte]
+          rfl
+  · rfl
+
+/-- On success exactly one frame is written; it has at least 16 octets and (being below 4 GiB)
+its first four octets state, big-endian, the number of octets written. -/
+theorem C12_success (L : Layout) (v : List FVal) (b : Bytes) (after : List FVal)
+    (h : marshal L v = ⟨.ok b, after⟩) :
+    writes (marshal L v) = [b] ∧ 16 ≤ b.length ∧ b.take 4 = be32 (UInt32.ofNat b.length) := by
+  refine ⟨by rw [h]; rfl, ?_⟩
+  cases v with
+  | nil => simp [marshal] at h
+  | cons x rest =>
+    cases x with
+    | header hd =>
+      obtain ⟨_, hcase⟩ := marshal_ok L hd rest b after h
+      rcases hcase with ⟨_, ⟨n16, hn16, hb⟩, _⟩ | ⟨_, body, rest', _, hb, _⟩
+      · subst hb
+        refine ⟨by simp [encHeader_length], ?_⟩
+        have : UInt32.ofNat 16 = n16 := by apply UInt32.toNat_inj.mp; rw [hn16]; decide
+        rw [encHeader_length, this]
+        rfl
+      · subst hb
+        have hl : (encHeader ⟨UInt32.ofNat (16 + body.length), UInt32.ofNat L.id, hd.status, hd.seq⟩ ++ body).length
+            = 16 + body.length := by simp [encHeader_length]
+        refine ⟨by omega, ?_⟩
+        rw [hl]
+        rfl
+    | _ => simp [marshal] at h
+
+/-- On error nothing is written to the destination. -/
+theorem C12_failure (L : Layout) (v : List FVal) (e : Err) (after : List FVal)
+    (h : marshal L v = ⟨.err e, after⟩) : writes (marshal L v) = [] := by
+  rw [h]; rfl
+
+/-- Send's guard and Marshal's agree: a non-positive sequence number is refused, whatever the
+command_status (the input class that used to panic). -/
+theorem C12_nonpositive_sequence (L : Layout) (h : Header) (rest : List FVal) (hs : h.seqPos = false) :
+    (marshal L (.header h :: rest)).res = .err .invalidSeq := by
+  simp [marshal, hs]
+
+/-! ## non-vacuity -/
+example : (marshal ⟨"Unbind", 6, [⟨"Header", .header⟩], false⟩ [.header ⟨0, 0, 3, 0⟩]).res = .err .invalidSeq := by
+  decide
+example : writes (marshal ⟨"Unbind", 6, [⟨"Header", .header⟩], false⟩ [.header ⟨0, 0, 0, 9⟩])
+    = [[0, 0, 0, 16, 0, 0, 0, 6, 0, 0, 0, 0, 0, 0, 0, 9]] := by decide
+
 end Smpp.Properties.C12
